@@ -228,15 +228,22 @@ func (s *Stream) decode(r io.Reader, parsedTypes TypeMap, p2p bool) (TypeMap,
 		// Search the records known to the stream for this type. We'll
 		// begin the search and recordIdx and walk forward until we find
 		// it or the next record's type is larger.
+		// A length that doesn't fit into an int64 can never be backed
+		// by that many bytes, and must not wrap around below.
+		if length > math.MaxInt64 {
+			return nil, ErrRecordTooLarge
+		}
+
 		rec, newIdx, ok := s.getRecord(typ, recordIdx)
 		switch {
 
 		// We know of this record type, proceed to decode the value.
-		// This method asserts that length bytes are read in the
-		// process, and returns an error if the number of bytes is not
-		// exactly length.
+		// The decoder is confined to the declared length, and we assert
+		// that exactly length bytes are read in the process, as
+		// otherwise the remainder of the stream would be misparsed.
 		case ok:
-			err := rec.decoder(r, rec.value, &s.buf, length)
+			lr := io.LimitedReader{R: r, N: int64(length)}
+			err := rec.decoder(&lr, rec.value, &s.buf, length)
 			switch {
 
 			// We'll convert any EOFs to ErrUnexpectedEOF, since this
@@ -247,6 +254,13 @@ func (s *Stream) decode(r io.Reader, parsedTypes TypeMap, p2p bool) (TypeMap,
 			// Other unexpected errors.
 			case err != nil:
 				return nil, err
+
+			// The decoder left part of the record unread.
+			case lr.N != 0:
+				return nil, NewTypeForDecodingErr(
+					rec.value, "record", length,
+					length-uint64(lr.N),
+				)
 			}
 
 			// Record the successfully decoded type if the caller
